@@ -307,3 +307,40 @@ fn o6_3_alloc_limit_counts_fragment_rounded_size() {
     assert!(s.alloc == 0 && s.total_size() == 0, "[C20] zero once everything has been acknowledged: payload bytes, not fragment-rounded bytes");
     std::mem::forget(r0); std::mem::forget(r2); std::mem::forget(s);
 }
+
+// ---- C19: teardown with outstanding fragment references leaves no allocation behind (CBMC --memory-leak-check) ----
+//@h props=C19,C12 tier=quick timeout=900 role=leak-sender cbmc=--memory-leak-check
+//@fn PacketSender::{enqueue_packet, emit_packet, acknowledge}, FragmentRef::new, drop glue of PacketSender / PendingPacket / Rc / Weak
+//@bound 4-slot sender; two packets (1 byte Reliable, 1449 bytes Unreliable) emitted, fragment references (Weak) kept as the flush path keeps them; the first packet is acknowledged while its reference is still queued; one packet stays in the send queue; everything is dropped
+//@assume CBMC's memory-leak check
+#[kani::proof]
+#[kani::unwind(5)]
+fn o19_2_sender_dropped_with_outstanding_references() {
+    let mut s = small(4, 0xFFFFF, 1448 * 8);
+    s.enqueue_packet(Box::new([1]), 0, SendMode::Reliable, 0);
+    s.enqueue_packet(vec![0u8; 1449].into_boxed_slice(), 1, SendMode::Unreliable, 0);
+    s.enqueue_packet(Box::new([3]), 2, SendMode::Persistent, 0);
+    let (p0, _) = s.emit_packet(0).unwrap();
+    let (p1, _) = s.emit_packet(0).unwrap();
+    let f0 = super::super::pending_packet::FragmentRef::new(&p0, 0);
+    let f1 = super::super::pending_packet::FragmentRef::new(&p1, 1);
+    drop(p0); drop(p1);
+    s.acknowledge(0);           // the receiver moved past the first packet: its Rc is released, the Weak is still alive
+    assert!(f0.packet.upgrade().is_none() && f1.packet.upgrade().is_some());
+    drop(s);
+    drop(f0); drop(f1);
+}
+
+//@h props=C19 tier=quick timeout=900 role=leak-canary cbmc=--memory-leak-check canary=1
+//@fn (canary) the same script with one Rc deliberately forgotten: the leak check must report it
+//@bound vacuity canary for the two o19_2 obligations: must FAIL
+#[kani::proof]
+#[kani::unwind(5)]
+fn o19_2_canary_forgotten_rc_is_reported_as_leak() {
+    let mut s = small(4, 0xFFFFF, 1448 * 8);
+    s.enqueue_packet(Box::new([1]), 0, SendMode::Reliable, 0);
+    let (p0, _) = s.emit_packet(0).unwrap();
+    s.acknowledge(0);
+    std::mem::forget(p0);      // the packet's allocation is never released
+    drop(s);
+}
